@@ -12,12 +12,20 @@ enum Mode {
 }
 
 fn contents() -> Vec<Vec<u8>> {
-    vec![b"".to_vec(), b"x".to_vec(), b"\xff\x00\xfe".to_vec(), crate::handle::pattern(8193)]
+    vec![
+        b"".to_vec(),
+        b"x".to_vec(),
+        b"\xff\x00\xfe".to_vec(),
+        crate::handle::pattern(8193),
+    ]
 }
 
 /// Source trees below /s: every well-formed tree over {a, a/a, a/b, b}; file i gets content i mod 4.
 fn source_trees() -> Vec<Vec<(String, Node)>> {
-    let paths: Vec<String> = ["/a", "/a/a", "/a/b", "/b"].iter().map(|s| s.to_string()).collect();
+    let paths: Vec<String> = ["/a", "/a/a", "/a/b", "/b"]
+        .iter()
+        .map(|s| s.to_string())
+        .collect();
     let w = contents();
     trees_over(&paths, b"")
         .into_iter()
@@ -52,46 +60,158 @@ fn project(joint: &Model, prefix: &str) -> Model {
 }
 
 fn prefixed(prefix: &str, entries: &[(String, Node)]) -> Vec<(String, Node)> {
-    entries.iter().map(|(p, n)| (format!("{}{}", prefix, p), n.clone())).collect()
+    entries
+        .iter()
+        .map(|(p, n)| (format!("{}{}", prefix, p), n.clone()))
+        .collect()
 }
 
 pub fn run_c11(ctx: &Ctx) -> i32 {
     let info = ctx.info("C11", "model_checking");
     let thorough = ctx.tier == Tier::Thorough;
     // (a) inside one instance: the composite calls in every reachable state (BFS to fixpoint)
-    let mon = Monitors { model: true, ..Default::default() };
+    let mon = Monitors {
+        model: true,
+        ..Default::default()
+    };
     let mut spaces = vec![];
-    for cfg in [Cfg::Mem, Cfg::Phys, Cfg::alt(Cfg::Mem, "/Z"), Cfg::Ov(vec![Cfg::Mem, Cfg::Mem])] {
-        let u = if matches!(cfg, Cfg::Ov(_)) { u4() } else { u22() };
-        spaces.push(TreeSpace::new("C11", cfg, Order::Asc, alphabet(u, &[b"x"], 1, true), Domain::Typed, empty_init(true), mon.clone()));
+    for cfg in [
+        Cfg::Mem,
+        Cfg::Phys,
+        Cfg::alt(Cfg::Mem, "/Z"),
+        Cfg::Ov(vec![Cfg::Mem, Cfg::Mem]),
+    ] {
+        let u = if matches!(cfg, Cfg::Ov(_)) {
+            u4()
+        } else {
+            u22()
+        };
+        spaces.push(TreeSpace::new(
+            "C11",
+            cfg,
+            Order::Asc,
+            alphabet(u, &[b"x"], 1, true),
+            Domain::Typed,
+            empty_init(true),
+            mon.clone(),
+        ));
     }
     // multi-byte and prefix-sharing names (re-rooting by byte offsets), and an overlay whose lower
     // layer holds the subtrees that are removed / copied / moved
     let mb = Universe::new("U_mb{é,é/a,éa,éa/é}", &["/é", "/é/a", "/éa", "/éa/é"]);
-    spaces.push(TreeSpace::new("C11", Cfg::Mem, Order::Asc, alphabet(mb.clone(), &[b"x"], 1, true), Domain::Typed, empty_init(true), mon.clone()));
-    spaces.push(TreeSpace::new("C11", Cfg::Phys, Order::Asc, alphabet(mb.clone(), &[b"x"], 1, true), Domain::Typed, empty_init(true), mon.clone()));
-    spaces.push(TreeSpace::new("C11", Cfg::Mem, Order::Asc, alphabet(u_names_small(), &[b"x"], 1, true), Domain::Typed, empty_init(true), mon.clone()));
-    spaces.push(TreeSpace::new("C11", Cfg::Ov(vec![Cfg::Mem, Cfg::Mem]), Order::Asc, alphabet(u3(), &[b"x"], 1, true), Domain::Typed, layerings(&[0, 1], &u3().paths, false), mon.clone()));
+    spaces.push(TreeSpace::new(
+        "C11",
+        Cfg::Mem,
+        Order::Asc,
+        alphabet(mb.clone(), &[b"x"], 1, true),
+        Domain::Typed,
+        empty_init(true),
+        mon.clone(),
+    ));
+    spaces.push(TreeSpace::new(
+        "C11",
+        Cfg::Phys,
+        Order::Asc,
+        alphabet(mb.clone(), &[b"x"], 1, true),
+        Domain::Typed,
+        empty_init(true),
+        mon.clone(),
+    ));
+    spaces.push(TreeSpace::new(
+        "C11",
+        Cfg::Mem,
+        Order::Asc,
+        alphabet(u_names_small(), &[b"x"], 1, true),
+        Domain::Typed,
+        empty_init(true),
+        mon.clone(),
+    ));
+    spaces.push(TreeSpace::new(
+        "C11",
+        Cfg::Ov(vec![Cfg::Mem, Cfg::Mem]),
+        Order::Asc,
+        alphabet(u3(), &[b"x"], 1, true),
+        Domain::Typed,
+        layerings(&[0, 1], &u3().paths, false),
+        mon.clone(),
+    ));
     // three levels: what is below a lower-layer subdirectory of the directory that is removed / moved
     let chain = Universe::new("U_chain3{a,a/a,a/a/a}", &["/a", "/a/a", "/a/a/a"]);
-    spaces.push(TreeSpace::new("C11", Cfg::Ov(vec![Cfg::Mem, Cfg::Mem]), Order::Asc, alphabet(chain.clone(), &[b"x"], 1, true), Domain::Typed, layerings(&[0, 1], &chain.paths, false), mon.clone()));
+    spaces.push(TreeSpace::new(
+        "C11",
+        Cfg::Ov(vec![Cfg::Mem, Cfg::Mem]),
+        Order::Asc,
+        alphabet(chain.clone(), &[b"x"], 1, true),
+        Domain::Typed,
+        layerings(&[0, 1], &chain.paths, false),
+        mon.clone(),
+    ));
     if thorough {
-        spaces.push(TreeSpace::new("C11", Cfg::Mem, Order::Asc, alphabet(u_names(), &[b"x"], 1, true), Domain::Typed, empty_init(true), mon.clone()));
-        spaces.push(TreeSpace::new("C11", Cfg::Ov(vec![Cfg::Mem, Cfg::Mem, Cfg::Mem]), Order::Asc, alphabet(u3(), &[b"x"], 1, true), Domain::Typed, layerings(&[0, 1, 2], &u3().paths, false), mon.clone()));
-        spaces.push(TreeSpace::new("C11", Cfg::Mem, Order::Desc, alphabet(u23(), &[b"x"], 1, true), Domain::Typed, empty_init(true), mon.clone()));
-        spaces.push(TreeSpace::new("C11", Cfg::Mem, Order::Desc, alphabet(u32(), &[b"x"], 1, true), Domain::Typed, empty_init(true), mon.clone()));
+        spaces.push(TreeSpace::new(
+            "C11",
+            Cfg::Mem,
+            Order::Asc,
+            alphabet(u_names(), &[b"x"], 1, true),
+            Domain::Typed,
+            empty_init(true),
+            mon.clone(),
+        ));
+        spaces.push(TreeSpace::new(
+            "C11",
+            Cfg::Ov(vec![Cfg::Mem, Cfg::Mem, Cfg::Mem]),
+            Order::Asc,
+            alphabet(u3(), &[b"x"], 1, true),
+            Domain::Typed,
+            layerings(&[0, 1, 2], &u3().paths, false),
+            mon.clone(),
+        ));
+        spaces.push(TreeSpace::new(
+            "C11",
+            Cfg::Mem,
+            Order::Desc,
+            alphabet(u23(), &[b"x"], 1, true),
+            Domain::Typed,
+            empty_init(true),
+            mon.clone(),
+        ));
+        spaces.push(TreeSpace::new(
+            "C11",
+            Cfg::Mem,
+            Order::Desc,
+            alphabet(u32(), &[b"x"], 1, true),
+            Domain::Typed,
+            empty_init(true),
+            mon.clone(),
+        ));
     } else {
-        spaces.push(TreeSpace::new("C11", Cfg::Mem, Order::Desc, alphabet(u22(), &[b"", b"x"], 2, true), Domain::Typed, empty_init(true), mon.clone()));
+        spaces.push(TreeSpace::new(
+            "C11",
+            Cfg::Mem,
+            Order::Desc,
+            alphabet(u22(), &[b"", b"x"], 2, true),
+            Domain::Typed,
+            empty_init(true),
+            mon.clone(),
+        ));
     }
     let lim = limits(ctx);
     let (mut stats, mut vio) = run_spaces(ctx, spaces, &lim);
 
     // (b) across instances
-    let backends: Vec<Cfg> = vec![Cfg::Mem, Cfg::Phys, Cfg::alt(Cfg::Mem, "/Z"), Cfg::alt(Cfg::Phys, "/Z"), Cfg::Ov(vec![Cfg::Mem, Cfg::Mem])];
+    let backends: Vec<Cfg> = vec![
+        Cfg::Mem,
+        Cfg::Phys,
+        Cfg::alt(Cfg::Mem, "/Z"),
+        Cfg::alt(Cfg::Phys, "/Z"),
+        Cfg::Ov(vec![Cfg::Mem, Cfg::Mem]),
+    ];
     let mut pairs: Vec<(Cfg, Cfg, Mode)> = vec![];
     for (i, a) in backends.iter().enumerate() {
         for (j, b) in backends.iter().enumerate() {
-            let quick_pick = matches!((i, j), (0, 0) | (0, 1) | (1, 0) | (1, 1) | (0, 4) | (4, 1) | (2, 3));
+            let quick_pick = matches!(
+                (i, j),
+                (0, 0) | (0, 1) | (1, 0) | (1, 1) | (0, 4) | (4, 1) | (2, 3)
+            );
             if thorough || quick_pick {
                 pairs.push((a.clone(), b.clone(), Mode::TwoFilesystems));
             }
@@ -100,19 +220,36 @@ pub fn run_c11(ctx: &Ctx) -> i32 {
     }
     let trees = source_trees();
     let dests = ["/d", "/e/d", "/m/d", "/x", "/e", "/x/d"];
-    let dest_env: Vec<(String, Node)> = vec![("/e".to_string(), Node::Dir), ("/x".to_string(), Node::File(b"old".to_vec())), ("/e/keep".to_string(), Node::File(b"k".to_vec()))];
+    let dest_env: Vec<(String, Node)> = vec![
+        ("/e".to_string(), Node::Dir),
+        ("/x".to_string(), Node::File(b"old".to_vec())),
+        ("/e/keep".to_string(), Node::File(b"k".to_vec())),
+    ];
     let mut runs = 0u64;
     let mut classes: BTreeMap<String, u64> = BTreeMap::new();
     let mut xvio: Vec<Violation> = vec![];
     for (ca, cb, mode) in &pairs {
-        let plabel = format!("{}->{}{}", ca.label(), cb.label(), if *mode == Mode::SameInstance { " (same instance)" } else { "" });
+        let plabel = format!(
+            "{}->{}{}",
+            ca.label(),
+            cb.label(),
+            if *mode == Mode::SameInstance {
+                " (same instance)"
+            } else {
+                ""
+            }
+        );
         // sources: every tree for copy_dir/move_dir, every content for copy_file/move_file
         let mut sources: Vec<(Vec<(String, Node)>, &str, Vec<&str>)> = vec![];
         for t in &trees {
             sources.push((t.clone(), "/s", vec!["copy_dir", "move_dir"]));
         }
         for w in contents() {
-            sources.push((vec![("/f".to_string(), Node::File(w))], "/f", vec!["copy_file", "move_file"]));
+            sources.push((
+                vec![("/f".to_string(), Node::File(w))],
+                "/f",
+                vec!["copy_file", "move_file"],
+            ));
         }
         for (src_entries, src, calls) in &sources {
             for call in calls {
@@ -124,14 +261,20 @@ pub fn run_c11(ctx: &Ctx) -> i32 {
                         a_entries.extend(dest_env.iter().cloned());
                     }
                     let a = build(ca, Order::Asc, &vec![]);
-                    let b_sys = if same { None } else { Some(build(cb, Order::Asc, &vec![])) };
+                    let b_sys = if same {
+                        None
+                    } else {
+                        Some(build(cb, Order::Asc, &vec![]))
+                    };
                     // populate through the stacks themselves
                     let populate = |root: &vfs::VfsPath, es: &[(String, Node)]| {
                         for (p, n) in es {
                             let x = at(root, p).unwrap();
                             match n {
                                 Node::Dir => x.create_dir_all().expect("HARNESS: populate"),
-                                Node::File(bytes) => PathApi::write_file(&x, bytes).expect("HARNESS: populate"),
+                                Node::File(bytes) => {
+                                    PathApi::write_file(&x, bytes).expect("HARNESS: populate")
+                                }
                             }
                         }
                     };
@@ -155,7 +298,10 @@ pub fn run_c11(ctx: &Ctx) -> i32 {
                         _ => Op::MoveFile(jp, jq),
                     };
                     let (exp, joint2) = joint.step(&op);
-                    let b_root = b_sys.as_ref().map(|b| b.root.clone()).unwrap_or_else(|| a.root.clone());
+                    let b_root = b_sys
+                        .as_ref()
+                        .map(|b| b.root.clone())
+                        .unwrap_or_else(|| a.root.clone());
                     let sp = at(&a.root, src).unwrap();
                     let dp = at(&b_root, dest).unwrap();
                     let out = guard(|| match *call {
@@ -170,26 +316,59 @@ pub fn run_c11(ctx: &Ctx) -> i32 {
                         "/x" | "/e" => "existing-dest",
                         _ => "parent-is-file",
                     };
-                    let ocl = match &out { Ok(Ok(_)) => "Ok".to_string(), Ok(Err(e)) => format!("Err({})", e.kind.name()), Err(_) => "Panic".into() };
-                    *classes.entry(format!("{}:{}:{}", call, dcls, ocl)).or_insert(0) += 1;
+                    let ocl = match &out {
+                        Ok(Ok(_)) => "Ok".to_string(),
+                        Ok(Err(e)) => format!("Err({})", e.kind.name()),
+                        Err(_) => "Panic".into(),
+                    };
+                    *classes
+                        .entry(format!("{}:{}:{}", call, dcls, ocl))
+                        .or_insert(0) += 1;
                     let mk = |tail: &str, what: String| Violation {
                         property: "C11".into(),
                         signature: format!("{}|{}|{}|{}", plabel, call, dcls, tail),
-                        summary: format!("{} {}({:?} -> {:?}) with source {:?}: {}", plabel, call, src, dest, src_entries.iter().map(|(p, n)| format!("{}{}", p, if *n == Node::Dir { "/" } else { "" })).collect::<Vec<_>>(), what),
+                        summary: format!(
+                            "{} {}({:?} -> {:?}) with source {:?}: {}",
+                            plabel,
+                            call,
+                            src,
+                            dest,
+                            src_entries
+                                .iter()
+                                .map(|(p, n)| format!(
+                                    "{}{}",
+                                    p,
+                                    if *n == Node::Dir { "/" } else { "" }
+                                ))
+                                .collect::<Vec<_>>(),
+                            what
+                        ),
                         replay: json!({"engine": "xfer", "pair": plabel, "call": call, "source": src, "dest": dest, "source_entries": src_entries.iter().map(|(p, n)| json!({"path": p, "dir": *n == Node::Dir})).collect::<Vec<_>>()}),
                     };
-                    let probes_a: Vec<String> = a_entries.iter().map(|(p, _)| p.clone()).chain(dests.iter().map(|d| d.to_string())).collect();
+                    let probes_a: Vec<String> = a_entries
+                        .iter()
+                        .map(|(p, _)| p.clone())
+                        .chain(dests.iter().map(|d| d.to_string()))
+                        .collect();
                     let snap_a = snapshot(&a.root, &probes_a).without_markers();
-                    let snap_b = b_sys.as_ref().map(|b| snapshot(&b.root, &probes_a).without_markers());
+                    let snap_b = b_sys
+                        .as_ref()
+                        .map(|b| snapshot(&b.root, &probes_a).without_markers());
                     let check_trees = |m: &Model, tail: &str, xvio: &mut Vec<Violation>| {
                         let da = diff_model(&snap_a, &project(m, "/A"), &probes_a);
                         if !da.is_empty() {
-                            xvio.push(mk(&format!("{}-source-fs", tail), format!("source filesystem: {}", da.join("; "))));
+                            xvio.push(mk(
+                                &format!("{}-source-fs", tail),
+                                format!("source filesystem: {}", da.join("; ")),
+                            ));
                         }
                         if let Some(sb) = &snap_b {
                             let db = diff_model(sb, &project(m, "/B"), &probes_a);
                             if !db.is_empty() {
-                                xvio.push(mk(&format!("{}-dest-fs", tail), format!("destination filesystem: {}", db.join("; "))));
+                                xvio.push(mk(
+                                    &format!("{}-dest-fs", tail),
+                                    format!("destination filesystem: {}", db.join("; ")),
+                                ));
                             }
                         }
                     };
@@ -197,12 +376,22 @@ pub fn run_c11(ctx: &Ctx) -> i32 {
                         (_, Err(m)) => xvio.push(mk("panic", format!("panicked: {}", m))),
                         (Expect::Ok(ret), Ok(Ok(got))) => {
                             if ret.is_some() && got != ret {
-                                xvio.push(mk("wrong-count", format!("returned {:?}, expected {:?}", got, ret)));
+                                xvio.push(mk(
+                                    "wrong-count",
+                                    format!("returned {:?}, expected {:?}", got, ret),
+                                ));
                             }
                             check_trees(&joint2, "effect-differs", &mut xvio);
                         }
-                        (Expect::Ok(_), Ok(Err(e))) => xvio.push(mk(&format!("exp=Ok|got=Err({})", e.kind.name()), format!("failed: {}", e.display))),
-                        (Expect::Err { .. }, Ok(Ok(_))) => xvio.push(mk("exp=Err|got=Ok", "succeeded although the destination exists / has no directory parent".into())),
+                        (Expect::Ok(_), Ok(Err(e))) => xvio.push(mk(
+                            &format!("exp=Ok|got=Err({})", e.kind.name()),
+                            format!("failed: {}", e.display),
+                        )),
+                        (Expect::Err { .. }, Ok(Ok(_))) => xvio.push(mk(
+                            "exp=Err|got=Ok",
+                            "succeeded although the destination exists / has no directory parent"
+                                .into(),
+                        )),
                         (Expect::Err { unchanged, .. }, Ok(Err(_))) => {
                             if *unchanged {
                                 check_trees(&joint, "refused-with-side-effects", &mut xvio);
@@ -212,12 +401,27 @@ pub fn run_c11(ctx: &Ctx) -> i32 {
                 }
             }
         }
-        println!("  [{}] runs so far={} violations so far={}", plabel, runs, xvio.len());
+        println!(
+            "  [{}] runs so far={} violations so far={}",
+            plabel,
+            runs,
+            xvio.len()
+        );
     }
     vio.extend(crate::handle::dedupe(xvio));
-    let mut xs = Stats { label: "cross-filesystem transfers (one call each from harness-built states)".into(), states: pairs.len() as u64, transitions: runs, fixpoint: true, nontrivial: classes.len() as u64, ..Default::default() };
+    let mut xs = Stats {
+        label: "cross-filesystem transfers (one call each from harness-built states)".into(),
+        states: pairs.len() as u64,
+        transitions: runs,
+        fixpoint: true,
+        nontrivial: classes.len() as u64,
+        ..Default::default()
+    };
     xs.counters = classes;
-    xs.samples = vec![vec!["copy_dir(A:/s -> B:/e/d) for every source tree over {a, a/a, a/b, b}".into()], vec!["move_file(A:/f -> B:/x) (existing destination)".into()]];
+    xs.samples = vec![
+        vec!["copy_dir(A:/s -> B:/e/d) for every source tree over {a, a/a, a/b, b}".into()],
+        vec!["move_file(A:/f -> B:/x) (existing destination)".into()],
+    ];
     stats.push(xs);
     let mut counts = BTreeMap::new();
     for st in &stats {
